@@ -627,6 +627,12 @@ func genProject(r *rng, tornPct int) Project {
 			p.Rules = append(p.Rules, RuleSpec{Name: "@unused", Text: pickEnum(r)})
 		}
 	}
+	switch {
+	case p.Kind == "jschema" && r.pct(12):
+		p.Opt = "optkeys"
+	case p.Kind == "rschema" && r.pct(25):
+		p.Opt = "seed=" + strconv.Itoa(r.n(5))
+	}
 	if tornPct > 0 && r.pct(tornPct) {
 		if len(p.Types) > 0 && r.pct(40) {
 			i := r.n(len(p.Types))
@@ -960,6 +966,13 @@ func genWorldC11(seed uint64, tornOthers bool) *World {
 			} else {
 				ops = append(ops, own...)
 			}
+		}
+		if r.pct(15) && len(ops) > 1 {
+			// a garbage collection empties the pools while other tasks hold pooled objects
+			cut := 1 + r.n(len(ops)-1)
+			merged := append([]Op{}, ops[:cut]...)
+			merged = append(merged, Op{Kind: "gc"})
+			ops = append(merged, ops[cut:]...)
 		}
 		w.Tasks[t] = ops
 	}
